@@ -30,6 +30,14 @@ def _alg(prob, kind):
     return Algorithm(prob, evaluator_type=kind)
 
 
+def _vec(ctx, args, v):
+    """The design vector as a list or as a numpy array (object array of proxies / float array in replays)."""
+    if args.get('container') == 'ndarray':
+        import numpy as np
+        return np.array(list(v), dtype=object if ctx.symbolic else float)
+    return v
+
+
 def worst_case(args):
     dim, o, sizes = args['dim'], args['o'], args['batches']
     from artap.individual import Individual
@@ -57,7 +65,7 @@ def worst_case(args):
         designs = []
         for t, maxsize in enumerate(sizes):
             size = 1 + ctx.choice('size_batch%d' % t, maxsize)      # every batch size 1..max is explored
-            batch = [Individual(ec.sym_vector(ctx, 'b%d_d%d' % (t, j), prob)) for j in range(size)]
+            batch = [Individual(_vec(ctx, args, ec.sym_vector(ctx, 'b%d_d%d' % (t, j), prob))) for j in range(size)]
             orig = {id(d): list(d.vector) for d in batch}
             c0 = len(prob.h.ok_calls())
             f0 = prob.h.nfault
@@ -110,7 +118,7 @@ def gradient(args):
         delta = 1e-4
         for t, maxsize in enumerate(sizes):
             size = 1 + ctx.choice('size_batch%d' % t, maxsize)
-            batch = [Individual(ec.sym_vector(ctx, 'b%d_d%d' % (t, j), prob)) for j in range(size)]
+            batch = [Individual(_vec(ctx, args, ec.sym_vector(ctx, 'b%d_d%d' % (t, j), prob))) for j in range(size)]
             orig = [list(d.vector) for d in batch]
             c0 = len(prob.h.calls)
             alg.evaluate(batch)
@@ -135,20 +143,22 @@ def gradient(args):
                     fd = (ch.costs[0] - d.costs[0]) / delta
                     ctx.check('gradient-is-forward-difference', ops.differs(g[i], fd, 1e-6))
                 ctx.check('cost-vector-length', len(d.costs) != o)
+                ctx.check('design-vector-unchanged', Not(ec.same_vec(list(d.vector), x)))
     return body
 
 
 def configs(tier):
     out = []
 
-    def wc(dim, o, batches, faults=0):
-        out.append({'name': 'worst-dim%d-o%d-%s%s' % (dim, o, 'x'.join(map(str, batches)), '-faults%d' % faults if faults else ''),
-                    'task': 'worst_case', 'args': {'dim': dim, 'o': o, 'batches': batches, 'faults': faults},
+    def wc(dim, o, batches, faults=0, container=None):
+        out.append({'name': 'worst-dim%d-o%d-%s%s%s' % (dim, o, 'x'.join(map(str, batches)), '-faults%d' % faults if faults else '',
+                                                        '-' + container if container else ''),
+                    'task': 'worst_case', 'args': {'dim': dim, 'o': o, 'batches': batches, 'faults': faults, 'container': container},
                     'weight': sum(batches) * dim * (20 if faults else 1), 'split': 32 if faults else None, 'engine': {'validate': 10}})
 
-    def gr(dim, o, batches):
-        out.append({'name': 'grad-dim%d-o%d-%s' % (dim, o, 'x'.join(map(str, batches))), 'task': 'gradient',
-                    'args': {'dim': dim, 'o': o, 'batches': batches}, 'weight': sum(batches) * dim, 'engine': {'validate': 10}})
+    def gr(dim, o, batches, container=None):
+        out.append({'name': 'grad-dim%d-o%d-%s%s' % (dim, o, 'x'.join(map(str, batches)), '-' + container if container else ''), 'task': 'gradient',
+                    'args': {'dim': dim, 'o': o, 'batches': batches, 'container': container}, 'weight': sum(batches) * dim, 'engine': {'validate': 10}})
     wc(1, 1, (2, 2, 2))
     wc(2, 1, (2, 1, 2))
     wc(1, 2, (1, 2, 2))
@@ -157,6 +167,8 @@ def configs(tier):
     gr(1, 1, (2, 2))
     gr(2, 1, (2, 2))
     gr(2, 2, (1, 2))
+    wc(2, 1, (2, 1), container='ndarray')
+    gr(2, 1, (2, 1), container='ndarray')
     if tier == 'thorough':
         wc(3, 1, (2, 2, 2))
         wc(2, 2, (1, 2, 1, 1))
